@@ -47,3 +47,34 @@ def concrete(x, lo, hi):
         if x == c:
             return c
     assume(False)
+
+
+_CACHES = None
+
+
+def _find_caches():
+    import sys
+    out = []
+    for name, mod in list(sys.modules.items()):
+        if name.split('.')[0] != 'smartquery' or mod is None:
+            continue
+        for v in list(vars(mod).values()):
+            if callable(getattr(v, 'cache_clear', None)):
+                out.append(v)
+    return out
+
+
+def reset_caches():
+    """clear every functools cache reachable from the smartquery modules, so that each explored path (and the replay)
+    starts from the same process state while caching WITHIN the path stays real"""
+    global _CACHES
+    if os.environ.get("SQV_MODE") == "crosshair":
+        from crosshair.tracers import NoTracing
+        with NoTracing():
+            if _CACHES is None:
+                _CACHES = _find_caches()
+            for c in _CACHES:
+                c.cache_clear()
+    else:
+        for c in _find_caches():
+            c.cache_clear()
